@@ -81,7 +81,7 @@ def main():
     ok = c.setup()
     for npn in (c.gate_report or {}).get('native_panics', []):
         c.add_violation('the native library panics on a document of the conformance corpus', {'docs': npn['docs']}, {'native': npn['native']}, role='native-bytes')
-    if ok:
+    if True:
         for label, kw in configs(c.tier):
             c.run(label, 'rsym.he', 'PanicFree', kw, time_cap=600 if c.tier == 'quick' else 900)
         native_bytes(c, 150 if c.tier == 'quick' else 2000)
